@@ -181,6 +181,11 @@ impl<T> SocksRequest<T> {
         socket: &mut IO,
         auth: A,
     ) -> Result<(), Error> {
+        if let TargetAddress::DomainPort(domain, _) = &self.target {
+            if domain.len() > u8::MAX as usize {
+                bail!("domain name too long for socks5: {} bytes", domain.len());
+            }
+        }
         // pre auth negotiation
         socket.write_u8(self.version).await.context("version")?;
         let methods = auth.supported_methods(&self.auth);
